@@ -191,6 +191,9 @@ type c20DeployCase struct {
 	Forward  int  `json:"forward"` // 0 absent, 1 true, 2 false
 	Cert     int  `json:"cert"`    // 0 none, 1 both, 2 only certificate, 3 only key
 	NoTarget bool `json:"no_target"`
+	// the limit is given explicitly with the value 0 (which is also the default): it was still given
+	MaxReqZero  bool `json:"max_req_zero,omitempty"`
+	MaxRespZero bool `json:"max_resp_zero,omitempty"`
 }
 
 func c20DeployCases(yield func(c20DeployCase) bool) {
@@ -207,8 +210,13 @@ func c20DeployCases(yield func(c20DeployCase) bool) {
 											if nt && (cert != 0 || fwd != 0) {
 												continue
 											}
-											if !yield(c20DeployCase{tls, host, prefix, maxReq, bufReq, maxResp, bufResp, fwd, cert, nt}) {
-												return
+											for _, z := range [][2]bool{{false, false}, {true, false}, {false, true}} {
+												if z[0] && !maxReq || z[1] && !maxResp {
+													continue
+												}
+												if !yield(c20DeployCase{tls, host, prefix, maxReq, bufReq, maxResp, bufResp, fwd, cert, nt, z[0], z[1]}) {
+													return
+												}
 											}
 										}
 									}
@@ -249,7 +257,9 @@ func (c c20DeployCase) args() []string {
 	case 4:
 		a = append(a, "--path-prefix", "api/")
 	}
-	if c.MaxReq {
+	if c.MaxReq && c.MaxReqZero {
+		a = append(a, "--max-request-body", "0")
+	} else if c.MaxReq {
 		a = append(a, "--max-request-body", "1000")
 	}
 	switch c.BufReq {
@@ -258,7 +268,9 @@ func (c c20DeployCase) args() []string {
 	case 2:
 		a = append(a, "--buffer-requests=false")
 	}
-	if c.MaxResp {
+	if c.MaxResp && c.MaxRespZero {
+		a = append(a, "--max-response-body", "0")
+	} else if c.MaxResp {
 		a = append(a, "--max-response-body", "2000")
 	}
 	switch c.BufResp {
